@@ -39,7 +39,7 @@ Definition f127 := f_of_Z 127.
 Definition f16383 := f_of_Z 16383.
 Definition fhalf : f64 := B.binary_normalize 53 1024 _ _ B.mode_NE 1 (-1) false.      (* 0.5 *)
 Definition fmhalf : f64 := B.binary_normalize 53 1024 _ _ B.mode_NE (-1) (-1) false.  (* -0.5 *)
-Definition f049 : f64 := f_of_bits 4602407713419708498.    (* 0.49 = 0x3FDF5C28F5C28F5C *)
+Definition f049 : f64 := f_of_bits 4602498675187552092.    (* 0.49 = 0x3FDF5C28F5C28F5C *)
 Definition fm049 : f64 := fneg f049.
 
 (* int(x) on amd64 (CVTTSD2SI): truncation; NaN, infinities and out-of-range give -2^63 *)
